@@ -72,6 +72,7 @@ type c05Edit struct {
 	Name  string `json:"name,omitempty"`
 	Value string `json:"value,omitempty"`
 	Ms    int64  `json:"ms,omitempty"` // redate: new IssueInstant = delivery instant (IdP clock) - Ms
+	// redate with Value set: IssueInstant becomes exactly this text (instants centuries away, beyond what a Duration can express)
 }
 
 type c05RegOp struct {
@@ -95,6 +96,9 @@ type c05Step struct {
 	Edits     []c05Edit  `json:"edits,omitempty"`
 	RegOps    []c05RegOp `json:"reg_ops,omitempty"`
 	Entity    string     `json:"entity,omitempty"` // idp_initiated: requested service provider id
+	// Interleave (via=validate): between decoding this request and validating it the IdP decodes another,
+	// valid request of another login (two requests in flight at API granularity)
+	Interleave bool `json:"interleave_other_request,omitempty"`
 }
 
 func c05BindingURI(b string) string {
@@ -269,6 +273,7 @@ func genIngress(g *Rng, tier string) *Plan {
 	n := 1 + g.PickW(5, 3, 2)
 	for i := 0; i < n; i++ {
 		st := c05Step{Kind: "request", SP: g.PickW(3, 1), Binding: Pick(g, "redirect", "post"), Via: Pick(g, "validate", "validate", "validate", "sso", "sso")}
+		st.Interleave = g.Bool(0.2)
 		if g.Bool(0.2) {
 			st.IssuedFor = 1
 		}
@@ -429,6 +434,9 @@ func c05GenEdit(g *Rng, st *c05Step, flat []c05ACS, mid int64) []c05Edit {
 		return []c05Edit{{Op: "set", Name: "Version", Value: Pick(g, "1.1", "", "2.0 ", "2", " 2.0", "2.00", "1.0", "3.0")}}
 	}
 	// re-date the request (unsigned, so Mallory may): new age drawn afresh
+	if g.Bool(0.3) {
+		return []c05Edit{{Op: "redate", Value: Pick(g, "1723-05-01T00:00:00Z", "1600-01-01T00:00:00Z", "1431-07-04T12:00:00Z", "1066-10-14T09:00:00Z", "0900-01-01T00:00:00Z", "0001-01-01T00:00:00Z", "1677-09-21T00:12:43Z")}}
+	}
 	age, _ := c05DrawAge(g, mid)
 	return []c05Edit{{Op: "redate", Ms: age}}
 }
@@ -537,7 +545,11 @@ func c05Apply(doc *etree.Document, e c05Edit, idpNow time.Time) {
 		}
 	case "redate":
 		root.RemoveAttr("IssueInstant")
-		root.CreateAttr("IssueInstant", idpNow.Add(-ms(e.Ms)).UTC().Format(c05TimeForm))
+		if e.Value != "" {
+			root.CreateAttr("IssueInstant", e.Value)
+		} else {
+			root.CreateAttr("IssueInstant", idpNow.Add(-ms(e.Ms)).UTC().Format(c05TimeForm))
+		}
 	}
 }
 
@@ -849,6 +861,17 @@ func execIngress(t *testing.T, p *Plan) *Result {
 				if err != nil {
 					observed = "REJECT(parse)"
 					return
+				}
+				if st.Interleave {
+					// another login's request arrives (and is decoded) before this one is validated
+					for n := 0; n < 3; n++ {
+						osp := sps[(st.SP+1)%2][st.Tenant]
+						if u2, e2 := osp.MakeRedirectAuthenticationRequest("other"); e2 == nil {
+							if o, e3 := saml.NewIdpAuthnRequest(idps[st.Tenant], redirectRequest(u2)); e3 == nil {
+								_ = o.Validate()
+							}
+						}
+					}
 				}
 				if err := req.Validate(); err != nil {
 					observed = "REJECT"
